@@ -206,7 +206,9 @@ macro_rules! generate_id_prototk {
                 if rem.len() < v {
                     return Err(prototk::buffer_too_short(v, rem.len()));
                 }
-                // TODO(rescrv): Have an error if v != 16.
+                if v != 16 {
+                    return Err(prototk::wrong_length(16, v));
+                }
                 let id = $what {
                     id: rem[..16].try_into().unwrap(),
                 };
